@@ -121,8 +121,11 @@ class QuicStreamReceiver:
         if self._final_size is not None and final_size != self._final_size:
             raise FinalSizeError("Cannot change final size")
 
-        # we are done receiving
+        # we are done receiving, the bytes up to the final size count as
+        # received for flow control
         self._final_size = final_size
+        if final_size > self.highest_offset:
+            self.highest_offset = final_size
         self.is_finished = True
         return events.StreamReset(error_code=error_code, stream_id=self._stream_id)
 
